@@ -98,7 +98,7 @@ quantiles_sketch<T, C, A>& quantiles_sketch<T, C, A>::operator=(const quantiles_
   std::swap(levels_, copy.levels_);
   std::swap(min_item_, copy.min_item_);
   std::swap(max_item_, copy.max_item_);
-  reset_sorted_view();
+  std::swap(sorted_view_, copy.sorted_view_); // released by its owner's allocator
   return *this;
 }
 
@@ -114,7 +114,7 @@ quantiles_sketch<T, C, A>& quantiles_sketch<T, C, A>::operator=(quantiles_sketch
   std::swap(levels_, other.levels_);
   std::swap(min_item_, other.min_item_);
   std::swap(max_item_, other.max_item_);
-  reset_sorted_view();
+  std::swap(sorted_view_, other.sorted_view_); // stays with the allocator that issued it
   return *this;
 }
 
